@@ -21,7 +21,7 @@ set_option linter.unusedVariables false
 set_option linter.unnecessarySeqFocus false
 namespace Bridge
 variable {α : Type} [Field α] [LinearOrder α] [IsStrictOrderedRing α]
-  [HasSqrt α] [HasExp α] [HasLog α] [HasSin α] [HasCos α] [HasAsin α] [HasRpow α] [HasPi α] [HasRound α] [HasFloor α]
+  [HasExp α] [HasLog α]
 
 theorem larvae_weight (wt temp init dt : α) (isEgg : Bool) :
     (if isEgg then wt else Bio.larvaWeight init temp dt wt) = Gen.larvae_weight wt temp isEgg init dt := by
